@@ -4,6 +4,7 @@ mod codec;
 mod gen_dispatch;
 mod seq;
 mod transport;
+mod wf;
 use std::io::{BufRead, Write};
 use std::sync::atomic::Ordering;
 mod alloc;
@@ -43,6 +44,13 @@ fn handle(line: &str) -> String {
                 None => "bad-op".into(),
             }
         }
+        ["wf", block, password, dir, script] => {
+            let items: Option<Vec<Vec<u8>>> = if *script == "." { Some(vec![]) } else { script.split(',').map(codec::hex_dec).collect() };
+            match (block.parse::<u32>(), password.parse::<usize>(), items) {
+                (Ok(b), Ok(p), Some(items)) => wf::run_wf(b, p, dir, items),
+                _ => "bad-op".into(),
+            }
+        }
         ["seq", name, input, script] => {
             let items: Option<Vec<Vec<u8>>> = if *script == "." { Some(vec![]) } else { script.split(',').map(codec::hex_dec).collect() };
             match (codec::hex_dec(input), items) {
@@ -57,8 +65,16 @@ fn handle(line: &str) -> String {
 fn main() {
     std::panic::set_hook(Box::new(|_| {}));
     let stdin = std::io::stdin();
-    let stdout = std::io::stdout();
-    let mut out = std::io::BufWriter::new(stdout.lock());
+    // The code under test prints progress with println! (WriteFile); keep the protocol channel clean:
+    // answers go to a duplicate of the original stdout, fd 1 itself is pointed at /dev/null.
+    let proto = unsafe {
+        use std::os::unix::io::FromRawFd;
+        let keep = libc::dup(1);
+        let null = libc::open(b"/dev/null\0".as_ptr() as *const libc::c_char, libc::O_WRONLY);
+        libc::dup2(null, 1);
+        std::fs::File::from_raw_fd(keep)
+    };
+    let mut out = std::io::BufWriter::new(proto);
     let watchdog = std::env::var("HARNESS_NO_WATCHDOG").is_err();
     let stats = std::env::var("HARNESS_ALLOC_STATS").is_ok();
     let mut max_ratio = 0f64;
